@@ -818,6 +818,45 @@ def desugar_qmark(toks, log):
         toks = relex(toks)
 
 
+def desugar_vec_extend(toks, log):
+    """R35: `RECV.extend(ARG)` with RECV a place path (`x`, `self.a.b`) -> `vec_extend_s(&mut RECV, ARG)`: this Verus has no
+    specification for `Vec::extend`; the prelude helper appends the elements ARG yields (an Option: none or one; a Vec: all, in order).
+    A unit without the helper does not compile (undecided), as before."""
+    toks = list(toks)
+    sig = [i for i, t in enumerate(toks) if t.kind not in ('ws', 'comment')]
+    pos = {i: n for n, i in enumerate(sig)}
+    edits = []
+    for n, i in enumerate(sig):
+        t = toks[i]
+        if t.kind == 'ident' and t.text == 'extend' and n >= 2 and n + 1 < len(sig) and toks[sig[n - 1]].text == '.' and toks[sig[n + 1]].text == '(':
+            # receiver: ident (. ident)* walking backwards
+            a = n - 2
+            if toks[sig[a]].kind != 'ident':
+                continue
+            while a - 2 >= 0 and toks[sig[a - 1]].text == '.' and toks[sig[a - 2]].kind == 'ident':
+                a -= 2
+            if a - 1 >= 0 and toks[sig[a - 1]].text in ('.', ')', ']', '?', '::'):
+                continue
+            op = sig[n + 1]
+            cl = match_close(toks, op)
+            edits.append((sig[a], i, op, cl))
+    if not edits:
+        return toks
+    out = []
+    k = 0
+    for (ra, ei, op, cl) in edits:
+        out.extend(toks[k:ra])
+        recv = text(toks[ra:ei]).strip()
+        recv = recv[:-1].strip() if recv.endswith('.') else recv
+        arg = text(toks[op + 1:cl])
+        rep = 'vec_extend_s(&mut %s, %s)' % (recv, arg)
+        out.extend(Tok(u.kind, u.text, 0, toks[ra].line) for u in lex(rep))
+        log.append(('R35', '%s.extend(..) -> vec_extend_s(&mut %s, ..)' % (recv, recv), toks[ra].line))
+        k = cl + 1
+    out.extend(toks[k:])
+    return relex(out)
+
+
 def desugar_iter_mut(toks, log):
     """R29: `for PAT in EXPR.iter_mut() { BODY }` ->
          { let mut __imN: usize = 0; while __imN < EXPR.len() { let PAT = &mut EXPR[__imN]; __imN = __imN + 1; BODY } }
